@@ -29,6 +29,15 @@ func H_C06_order() {
 	ta, err := core.NewTransferAttributes(core.PROTOCOL_IBC, "channel-0", nativeDenom, A)
 	must(err)
 	w.L.Set(core.ModuleAddress, nativeDenom, A)
+	// coins of the OTHER denomination that the orbiter account already holds (only the incoming denomination is swept):
+	// a transfer that ends in that denomination is then refused by the forwarder's balance precondition — it must never
+	// be executed with another amount than the one the last action left
+	priorOther := math.ZeroInt()
+	if verif.Bool("orbiter-already-holds-the-other-denomination") {
+		priorOther = verif.BigInt("prior-other-denom")
+		verif.Assume(priorOther.IsPositive() && priorOther.LT(math.NewIntWithDecimal(1, 60)))
+		w.L.Set(core.ModuleAddress, "uother", priorOther)
+	}
 	swapAct := func() *core.Action {
 		a, err := core.NewAction(core.ACTION_SWAP, &actiontypes.FeeAttributes{})
 		must(err)
@@ -96,7 +105,7 @@ func H_C06_order() {
 	}
 	if err != nil {
 		verif.Cover("refused")
-		verif.Assert(refused, "valid-action-list-is-executed")
+		verif.Assert(refused || (priorOther.IsPositive() && curDenom == "uother"), "valid-action-list-is-executed")
 		return
 	}
 	verif.Cover("executed")
